@@ -692,7 +692,8 @@ class XsdGroup(XsdComponent, MutableSequence[ModelParticleType],
                 return self.is_restriction(other[0], check_occurs)
             elif self.ref is None and isinstance(self[0], XsdGroup) \
                     and self[0].is_pointless(parent=self):
-                return self[0].is_restriction(other[0], check_occurs)
+                return self.has_occurs_restriction(other) and \
+                    self[0].is_restriction(other[0], check_occurs)
 
         # Compare model with model
         if self.model != other.model and self.model != 'sequence' and \
@@ -1299,7 +1300,8 @@ class Xsd11Group(XsdGroup):
                 return self.is_restriction(other[0], check_occurs)
             elif self.ref is None and isinstance(self[0], XsdGroup) \
                     and self[0].is_pointless(parent=self):
-                return self[0].is_restriction(other[0], check_occurs)
+                return self.has_occurs_restriction(other) and \
+                    self[0].is_restriction(other[0], check_occurs)
 
         if other.model == 'sequence':
             return self.is_sequence_restriction(other)
